@@ -29,6 +29,9 @@ def plan(prop, tier, seed):
         sh = [{"kind": "words", "lo": i * 4096, "hi": (i + 1) * 4096, "combos": 1 if q else 20, "shard": i} for i in range(16)]
         sh += [{"kind": "progs", "n": 400 if q else 7000, "shard": i} for i in range(8 if q else 16)]
         sh += [{"kind": "full", "shard": 0}]
+        if not q:
+            # one run() of more than 2^20 instructions (thorough tier only: 11 s for the real machine alone)
+            sh += [{"kind": "longrun", "shard": 0}]
         return sh
     if prop == "C19":
         return [{"kind": "encode", "shard": 0}, {"kind": "docs", "shard": 0}] + [{"kind": "asm", "n": 60 if q else 1000, "shard": i} for i in range(6 if q else 16)]
@@ -778,6 +781,8 @@ def gen_calls(rng, n):
 
 
 def run_case(prop, case, res, sim=None):
+    if case.get("kind") == "longrun":
+        return run_longrun_case(case, res)
     k = case["kind"]
     if k == "exec":
         ref = run_exec_case(case, res, sim)
@@ -797,10 +802,35 @@ def run_case(prop, case, res, sim=None):
         run_docs(res)
 
 
+LONGRUN_TEXT = ".data\nci: .word 0\nco: .word 300\nini: .word 600\n.text\nouter:\nLDA ini\nSTO ci\ninner:\nLDA ci\nDEC\nSTO ci\nBRZ next\nZRO\nBRZ inner\nnext:\nLDA co\nDEC\nSTO co\nBRZ end\nZRO\nBRZ outer\nend:\nNOP"
+
+
+def run_longrun_case(case, res):
+    """a nested counting loop of about 1.08 million instructions executed by ONE run() call with nothing attached: the
+    machine stops when the program does, not before"""
+    sim = new_sim(LONGRUN_TEXT)
+    ref = RefToy({a: int(v) for a, v in sim.state.memory.memory_file.items()}, sim.state.max_pc, 0)
+    while not ref.done and ref.n < 3_000_000:
+        ref.step()
+    try:
+        with_alarm(300, sim.run)
+    except AlarmTimeout:
+        res.violation("C06", "run-does-not-terminate", "run() did not return within 300 s of CPU time on a program of %d instructions" % ref.n, case)
+        return
+    res.count("long_runs")
+    res.count("long_run_instructions", ref.n)
+    if compare(sim, ref, res, case, "after one run() of %d instructions" % ref.n):
+        res.nontrivial(h64(case))
+
+
 def run_shard(spec, res):
     prop = spec["prop"]
     rng = rng_for(prop, spec["tier"], spec["seed"], spec["kind"], spec["shard"])
     k = spec["kind"]
+    if k == "longrun":
+        guarded(run_case, prop, {"kind": "longrun"}, res)
+        res.evaluations += 1
+        return
     if k == "words":
         from architecture_simulator.simulation.toy_simulation import ToySimulation
 
